@@ -53,6 +53,10 @@ impl Src {
             4 => {
                 t.insert("f".into(), Node::dir(T0 + 104));
             }
+            5 => {
+                // same size and same whole second as A, other bytes: only the nanoseconds differ
+                t.insert("f".into(), Node::file(b"ccccc", T0 + 101).with_mtime(T0 + 101, 500).with_mode(mode));
+            }
             _ => {}
         }
         match self.g {
@@ -130,7 +134,7 @@ impl Src {
 pub fn set_menu(full: bool) -> Vec<(u8, u8)> {
     if full {
         let mut v = Vec::new();
-        for f in 0..=4 {
+        for f in 0..=5 {
             v.push((0, f));
         }
         for g in 0..=3 {
@@ -147,7 +151,7 @@ pub fn set_menu(full: bool) -> Vec<(u8, u8)> {
         v.push((4, 2));
         v
     } else {
-        vec![(0, 2), (0, 3), (0, 4), (0, 0), (1, 2), (2, 2), (4, 1)]
+        vec![(0, 2), (0, 3), (0, 4), (0, 5), (0, 0), (1, 2), (2, 2), (4, 1)]
     }
 }
 
